@@ -268,6 +268,30 @@ def guard_all(rng, p, keep=()):
     return q
 
 
+def respect_convention(p):
+    """every `return a, nil` of an error-returning function returns a fresh value instead (the callee respects the
+    (value, error) convention: a nil error comes with a non-nil value), and every such function may fail with
+    (nil, fresh error)"""
+    def go(s):
+        k = s[0]
+        if k == "seq":
+            return M.seq(M.flatten(go(s[1])) + M.flatten(go(s[2])))
+        if k == "if":
+            return ("if", s[1], go(s[2]), go(s[3]))
+        if k == "while":
+            return ("while", s[1], go(s[2]))
+        if k == "return2" and s[2] == "nil":
+            return ("return2", "new", "nil")
+        return s
+    q = dict(p)
+    def end(b):
+        # ... and may fail: if opaque() { return nil, errors.New(..) } first
+        b = M.seq([("if", ("opaque",), ("return2", "nil", "new"), ("skip",))] + M.flatten(b))
+        return M.seq(M.flatten(b) + [("return2", "new", "nil")]) if M.falls(b) else b
+    q["funcs"] = [dict(fd, body=end(go(fd["body"]))) if fd.get("err") else fd for fd in p["funcs"]]
+    return q
+
+
 class EGen(Gen):
     """programs with the (value, error) convention (C08): error-returning functions whose error operand is the
     literal nil, a fresh error, or an error variable inside its own `!= nil` check (forwarding); callers that check
@@ -1046,7 +1070,7 @@ def real_reports(res, name, pos):
     for d, (f, ln, col) in pos.items():
         rev[(f, ln, col)] = d
     ids, other = set(), []
-    for dg in res["diags"]:
+    for dg in res["diags"] or []:
         parts = dg["pkg"].split("/")
         if len(parts) < 4 or parts[2] != name:
             continue
